@@ -2,6 +2,7 @@
 package main
 
 import (
+	"verif/checks/c01"
 	"verif/checks/c02"
 	"verif/checks/c03"
 	"verif/checks/c07"
@@ -18,6 +19,7 @@ import (
 
 func main() {
 	ev.Main(map[string]*ev.Check{
+		"C01": c01.Check,
 		"C02": c02.Check,
 		"C03": c03.Check,
 		"C07": c07.Check,
